@@ -182,6 +182,21 @@ func main() {
 		hs.Quick, hs.Heavy = 3, true
 		specs = append(specs, hs)
 	}
+	for init := 0; init <= 1; init++ {
+		for _, pg := range [][]prog{
+			{{"push:1"}, {"push:2"}, {"pop"}, {"pop"}},
+			{{"push:1"}, {"pop"}, {"pop"}, {"len"}},
+			{{"push:1"}, {"push:2"}, {"push:3"}, {"pop"}},
+		} {
+			var names []string
+			for _, q := range pg {
+				names = append(names, strings.Join(q, ","))
+			}
+			s4 := scenario("four/"+strings.Join(names, "|"), init, pg...)
+			s4.ThoroughOnly, s4.Heavy = true, true
+			specs = append(specs, s4)
+		}
+	}
 	sched.Main("C11", specs,
 		[]string{
 			"small scope: <= 3 goroutines x <= 2 operations, initial content 0..2; positive PopWait durations run on abstract time (the ticker is a daemon virtual thread, no wall clock)",
